@@ -6,6 +6,7 @@ import (
 	"fmt"
 	"os"
 	"path/filepath"
+	"sort"
 	"sync"
 	"sync/atomic"
 	"time"
@@ -837,14 +838,43 @@ func (m *Manager) loadSSTables() error {
 		return fmt.Errorf("failed to read SSTable directory: %w", err)
 	}
 
-	// Loop through all entries
+	// Collect the table files
+	var names []string
 	for _, entry := range entries {
 		if entry.IsDir() || filepath.Ext(entry.Name()) != ".sst" {
 			continue // Skip directories and non-SSTable files
 		}
+		names = append(names, entry.Name())
+	}
 
+	// Get and the iterators consult m.sstables from its end, so the list must
+	// run from the oldest table to the newest. File names are
+	// level_sequence_timestamp.sst: a deeper level holds older data than a
+	// shallower one, and within a level the creation timestamp decides (the
+	// sequence restarts with every process). Plain directory order would put
+	// level-0 files before deeper levels, i.e. treat them as older
+	tableAge := func(name string) (level int, timestamp int64, sequence uint64) {
+		if n, err := fmt.Sscanf(name, "%d_%06d_%020d.sst", &level, &sequence, &timestamp); n != 3 || err != nil {
+			return 0, 0, 0
+		}
+		return level, timestamp, sequence
+	}
+	sort.SliceStable(names, func(i, j int) bool {
+		li, ti, si := tableAge(names[i])
+		lj, tj, sj := tableAge(names[j])
+		if li != lj {
+			return li > lj
+		}
+		if ti != tj {
+			return ti < tj
+		}
+		return si < sj
+	})
+
+	// Open the tables in that order
+	for _, name := range names {
 		// Open the SSTable
-		path := filepath.Join(m.sstableDir, entry.Name())
+		path := filepath.Join(m.sstableDir, name)
 		reader, err := sstable.OpenReader(path)
 		if err != nil {
 			return fmt.Errorf("failed to open SSTable %s: %w", path, err)
